@@ -110,7 +110,11 @@ class KindEngine:
             if cls == "Assignment":
                 f.update({"src": r.pure(label + ".src"), "dest": r.pure(label + ".dest", type=EnumV("PureType", "LOCAL", 1)), "assign_type": EnumV("AssignmentType", "ASSIGN", "=")})
             if cls == "Sequence":
-                f.update({"effects": []})
+                # a flushed consumer: [pending effect of an operand, the consumer itself]
+                inner = AObj("Assignment", {"name": label + ".last", "effect_ops": [], "type": Opaque("effect_type"), "src": r.pure(label + ".last.src"),
+                                            "dest": r.pure(label + ".last.dest", type=EnumV("PureType", "LOCAL", 1)), "assign_type": EnumV("AssignmentType", "ASSIGN", "=")}, label=label + ".last", origin=label, opaque=False)
+                first = AObj("Sequence", {"name": label + ".first", "effect_ops": [], "effects": [], "type": Opaque("effect_type")}, label=label + ".first", origin=label, opaque=False)
+                f.update({"effects": [first, inner]})
             if cls in self.pure_classes:
                 from rules.common import mk_vt as _mk
 
@@ -338,7 +342,14 @@ class KindEngine:
             for i in content_idx:
                 obj = objs[i]
                 ids = self.reach(obj)
-                if isinstance(obj, (AObj, list)) and not (ids & reached):
+                lost = False
+                if isinstance(obj, AObj):
+                    # the child itself has to be part of the result: taking a piece out of it (the last effect of a sequence)
+                    # loses the rest
+                    lost = id(obj) not in reached
+                elif isinstance(obj, list):
+                    lost = not (ids & reached)
+                if lost:
                     d = combo[i]
                     k = f"{name}[{alt.origin}#{alt.order}: {alt.skeleton()}] child {i}"
                     f = self.findings.setdefault(k, Finding("D1", k, "not part of the callback's result on a translating path", where))
